@@ -4,36 +4,11 @@
    executable forms of the C09 specification (Spec/SchedSpec.v). *)
 From Coq Require Import List NArith ZArith Bool Arith.
 Import ListNotations.
-From PyGql Require Import Exec.RuntimeMachine Run.C08run.
+From PyGql Require Import Exec.RuntimeMachine Spec.SchedSpec Run.C08run.
 
 Definition case_C09 : Type := case_C08.
 
-Definition entry_top (e : entry) : option N :=
-  match e with
-  | LInvoke t | LFinish t => hd_error (fst t)
-  | LErr p _ => hd_error p
-  end.
-
-Fixpoint index_of (k : N) (ks : list N) : option nat :=
-  match ks with
-  | [] => None
-  | x :: r => if N.eqb k x then Some O else option_map S (index_of k r)
-  end.
-
-(* top-level key indices never decrease along the trace *)
-Fixpoint serialb_from (ks : list N) (cur : nat) (l : list entry) : bool :=
-  match l with
-  | [] => true
-  | e :: r =>
-      match entry_top e with
-      | Some k => match index_of k ks with
-                  | Some i => Nat.leb cur i && serialb_from ks i r
-                  | None => false
-                  end
-      | None => false
-      end
-  end.
-Definition serialb (ks : list N) (l : list entry) : bool := serialb_from ks O l.
+(* entry_top, index_of, key_index, serialb: Spec/SchedSpec.v (serialb_sound: serialb = true -> serial_trace) *)
 
 (* each Finish is preceded by its Invoke *)
 Fixpoint causalb (seen : list tid) (l : list entry) : bool :=
